@@ -185,7 +185,10 @@ def _random_body(ch: core.Chooser, depth: int, budget_: List[int]) -> List[dict]
         elif kind == "op":
             body.append(_op_node(c, None))
         elif kind == "op_fault":
-            body.append(_op_node(c, c.choice(["line", "line", "alloc"])))
+            node = _op_node(c, c.choice(["line", "line", "alloc", "interleave", "interleave"]))
+            if node["fault"]["kind"] == "interleave":
+                node["fault"]["kw"] = _kw(c.sub("other"), 1, 2)  # what the other thread sets while the operation is under way
+            body.append(node)
         elif kind == "catch":
             body.append({"k": "catch", "body": _random_body(c.sub("b"), depth, budget_)})
         elif kind == "leave":
@@ -722,7 +725,7 @@ class Interp:
             self.bump(f"fault:op_{kind}.configured")
             # a fault-free dry run of the same step measures the number of
             # candidate positions; once chosen, the position is a literal of the plan.
-            if kind == "line":
+            if kind in ("line", "interleave"):
                 tr = seams.LineTracer(NUMPOLY_DIR)
                 try:
                     tr.run(thunk)
@@ -746,7 +749,25 @@ class Interp:
                 self.bump("undecided:no-fault-position")
                 return None
             try:
-                if kind == "line":
+                if kind == "interleave":
+                    # a second thread of the process calls set_options at this instant of the operation (the schedule
+                    # is the position k); the operation itself has no business writing options, so afterwards the
+                    # other thread's update stands
+                    other = fault.get("kw") or {}
+
+                    def other_thread() -> None:
+                        self.np.set_options(**other)
+                        self.model.update(other)
+                        self.bump("fault:op_interleave.fired")
+
+                    tr = seams.LineTracer(NUMPOLY_DIR, k=k, action=other_thread)
+                    try:
+                        tr.run(thunk)
+                    finally:
+                        self.bump("traced_lines", tr.count)
+                        if tr.fired:
+                            self.events.append(["interleaved-set", nid, tr.fired])
+                elif kind == "line":
                     tr = seams.LineTracer(NUMPOLY_DIR, k=k)
                     try:
                         tr.run(thunk)
